@@ -8,7 +8,7 @@ adv model:     C06 - the helper returns normally only with exact-length data / a
 from pyvc import terms as t
 from pyvc.terms import I
 from pyvc.values import *  # noqa
-from pyvc.contract import FnContract, Case, register, rk_bytes, rk_int, rk_none, rk_dyn
+from pyvc.contract import FnContract, Case, register, rk_bytes, rk_int, rk_none, rk_dyn, rk_bool
 from pyvc import streams
 
 P = ('C06', 'C18')
@@ -290,3 +290,42 @@ class FromReading(FnContract):
 
 
 register(FromReading('construct.core:BytesIOWithOffsets.from_reading', cases=[], setup=None, tags=('C08',)))
+
+
+# ------------------------------------------------------------------------------------------------ stream_size / stream_iseof
+# Probing helpers: they look at the stream and put it back.  Exact io.BytesIO: the answer is the length / "no byte left",
+# buffer and position unchanged; adversarial stream: whatever the stream does, only StreamError escapes.
+def _size_ensures(pre, post):
+    o = pre.obj('stream')
+    return [('returns-the-length-of-the-stream', t.eq(post.eng.as_int(post.result, post.st)[0], o.len), F)] + same_buffer(pre, post) + [
+        ('position-unchanged', t.eq(post.obj('stream').pos, o.pos), F)]
+
+
+register(FnContract(
+    'construct.core:stream_size',
+    setup=setup_helper({'stream': 'stream'}),
+    stream_models=('bytesio', 'adv'),
+    tags=P + F,
+    cases=[
+        Case('ok', 'return', lambda pre: t.TRUE, ensures=_size_ensures, rkind=rk_int, modifies=['stream'], model='bytesio'),
+        Case('ok', 'return', lambda pre: t.TRUE, rkind=rk_int, modifies=['stream'], model='adv'),
+        Case('fails', 'raise', lambda pre: t.TRUE, exc='StreamError', modifies=['stream'], model='adv'),
+    ]))
+
+
+def _iseof_ensures(pre, post):
+    o = pre.obj('stream')
+    return [('true-exactly-when-no-byte-is-left', t.eq(post.eng.truth(post.result, post.st), t.ge(o.pos, o.len)), F)] + same_buffer(pre, post) + [
+        ('position-unchanged', t.eq(post.obj('stream').pos, o.pos), F)]
+
+
+register(FnContract(
+    'construct.core:stream_iseof',
+    setup=setup_helper({'stream': 'stream'}),
+    stream_models=('bytesio', 'adv'),
+    tags=P + F,
+    cases=[
+        Case('ok', 'return', lambda pre: t.TRUE, ensures=_iseof_ensures, rkind=rk_bool, modifies=['stream'], model='bytesio'),
+        Case('ok', 'return', lambda pre: t.TRUE, rkind=rk_bool, modifies=['stream'], model='adv'),
+        Case('fails', 'raise', lambda pre: t.TRUE, exc='StreamError', modifies=['stream'], model='adv'),
+    ]))
